@@ -121,6 +121,11 @@ class Ctx:
             if f['id'] in self.known_seen:
                 out('KNOWN-FINDING: property=%s %s [%s; seen %d times]' % (
                     self.prop, f['text'], f['id'], self.known_seen[f['id']]))
+        if self.violations:
+            by = {}
+            for v in self.violations:
+                by[v['site']] = by.get(v['site'], 0) + 1
+            log('  violations by site: %s' % sorted(by.items(), key=lambda kv: -kv[1])[:40])
         wall = time.time() - self.t0
         cov = {
             'states': max(self.states, 1) if self.mc_runs else self.states,
